@@ -155,20 +155,46 @@ class C16(Prop):
         enc = CODECS[cs] if cs != 'opaque' else name
         chunks = [bytes(c) for c in chunks]
         params = {} if enc is None else {'charset': enc}
-        c = Content(ContentType('text' if is_text else 'application', 'plain', params), lambda: chunks)
-        err = None
-        try:
-            pieces = list(c.iter_text())
-            at = c.as_text()
-            if at != ''.join(pieces):
-                return ['as-text-differs-from-iter-text']
-            if cs == 'opaque':
-                pieces = [at]
-            pieces = some([cps(p) for p in pieces])
-        except UnicodeDecodeError:
-            pieces, err = None, 'UnicodeDecodeError'
-        except ValueError:
-            pieces, err = None, 'ValueError'
+        ct = ContentType('text' if is_text else 'application', 'plain', params)
+
+        def observe(c):
+            err = None
+            try:
+                pieces = list(c.iter_text())
+                at = c.as_text()
+                if at != ''.join(pieces):
+                    return 'as-text-differs-from-iter-text', None
+                if cs == 'opaque':
+                    pieces = [at]
+                pieces = some([cps(p) for p in pieces])
+            except UnicodeDecodeError:
+                pieces, err = None, 'UnicodeDecodeError'
+            except ValueError:
+                pieces, err = None, 'ValueError'
+            return pieces, err
+        pieces, err = observe(Content(ct, lambda: chunks))
+        if err is None and pieces == 'as-text-differs-from-iter-text':
+            return [pieces]
+        # the text of a content is a function of its bytes: whatever was done with the same Content object before (an
+        # abandoned iter_text, an earlier complete or failed decode, a source that has grown since) must not change it
+        for j in range(len(chunks) + 1):
+            for use in ('abandon', 'earlier-shorter-source'):
+                cur = [chunks]
+                c = Content(ct, lambda: cur[0])
+                try:
+                    if use == 'abandon':
+                        it = c.iter_text()
+                        for _ in range(j):
+                            next(it, None)
+                        del it
+                    else:
+                        cur[0] = chunks[:j]
+                        c.as_text()
+                        cur[0] = chunks
+                except (UnicodeDecodeError, ValueError):
+                    cur[0] = chunks
+                if observe(c) != (pieces, err):
+                    return ['decode-depends-on-earlier-use', use, j]
         try:
             whole = some(cps(b''.join(chunks).decode(enc or 'ISO-8859-1')))
         except UnicodeDecodeError:
